@@ -191,8 +191,13 @@ func (c *Ctx) Finish(cov map[string]any, assumptions []string) int {
 		Assumptions: assumptions, WallS: time.Since(c.Start).Seconds(), Violations: len(c.violations),
 		Notes: c.notes, KnownHits: c.KnownHits}
 	b, _ := json.MarshalIndent(ev, "", " ")
-	os.MkdirAll(filepath.Join(Root, "evidence"), 0o755)
-	if err := os.WriteFile(filepath.Join(Root, "evidence", c.Property+".json"), b, 0o644); err != nil {
+	evDir := filepath.Join(Root, "evidence")
+	if os.Getenv("VERIF_REPO") != "" {
+		// development runs against another checkout (seeded changes) must not overwrite the evidence of /repo
+		evDir = filepath.Join(Root, ".build", "evidence-scratch")
+	}
+	os.MkdirAll(evDir, 0o755)
+	if err := os.WriteFile(filepath.Join(evDir, c.Property+".json"), b, 0o644); err != nil {
 		fmt.Println("cannot write evidence:", err)
 		return 2
 	}
